@@ -436,7 +436,7 @@ def run_shard(shard):
             "Uniform(max<min)": (lambda a, b: D.Uniform(a, b), (A([0.0, 1.0]), A([1.0, 0.5]))),
             "VmapMixture(weight 0)": (mix, (A([1.0, 0.0, 2.0]),)), "VmapMixture(weight <0)": (mix, (A([1.0, -tiny, 2.0]),)),
             "VmapMixture(all weights <0)": (mix, (A([-1.0, -1.0, -2.0]),)),
-            "Exponential(rate<0)": (lambda r: D.Exponential(r), (A(-1.0),)), "Exponential(rate=0)": (lambda r: D.Exponential(r), (A(0.0),)),
+            "Exponential(rate<0)": (lambda r: D.Exponential(r), (A(-1.0),)),
             "Normal(scale=0)": (lambda s: D.Normal(A(0.0), s), (A(0.0),)), "Normal(scale<0)": (lambda s: D.Normal(A(0.0), s), (A(-2.0),)),
             "LogNormal(scale<0)": (lambda s: D.LogNormal(A(0.0), s), (A(-2.0),)), "Gumbel(scale=0)": (lambda s: D.Gumbel(A(0.0), s), (A(0.0),)),
             "Cauchy(scale<0)": (lambda s: D.Cauchy(A(0.0), s), (A(-1.0),)), "Laplace(scale=0)": (lambda s: D.Laplace(A(0.0), s), (A(0.0),)),
